@@ -22,6 +22,8 @@ def run(cls, path):
     except Exception as e:
         print("regeneration/build before replay failed:", e)
     case = rp["input"]
+    if hasattr(st, "prepare"):
+        st.prepare(harness, chk)
     if hasattr(st, "from_replay"):
         case = st.from_replay(case)
     obs = C.harness_call(harness, st.sub, [st.go_case(case)])
